@@ -608,7 +608,8 @@ def segSetStr (sg : Seg) (name : String) (value : Str) (ec : EC) (strict : Bool)
   segAdd T sg f strict
 
 def segment (text : Str) (ec : EC) (strict : Bool) : R Seg := do
-  let name := String.ofList (text.take 3)
+  -- `segment_name = text[:3].upper()` (after the repair of defect D46: the header segment is recognised in any letter case)
+  let name := (String.ofList (text.take 3)).toUpper
   let rest := if name != "MSH" then text.drop 4 else text.drop 3
   let sg0 ← segmentNew T name
   -- parse_fields
